@@ -77,12 +77,15 @@ def dir_jobs(ctx, first_id, workdir):
                     proj = os.path.join(workdir, "cli", str(jid), "proj")
                     start = proj if where == "root" else proj + "/sub"
                     pr = 'echo "%s:$(/bin/pwd)" >> "$PROJ/out"'        # the external pwd: the directory the command's processes really run in
-                    task = {"command": [pr % "cmd"], "before": [pr % "before"], "after": [pr % "after"], "condition": pr % "cond", "context": "cx"}
+                    # (the command before it changes directory: every command starts in the task's directory again)
+                    task = {"command": ['cd "$PROJ/sub"', pr % "cmd"], "before": ['cd "$PROJ/sub"', pr % "before"], "after": [pr % "after"], "condition": pr % "cond", "context": "cx"}
                     if "task" in sub:
                         task["dir"] = "{{.PD}}/../proj/td" if rel == "dotdot" else "{{.RelT}}" if rel else "{{.PD}}/td"
                     cx = {"env": {"CX": "1"}}
                     if "ctx" in sub:
                         cx["dir"] = proj + "/cd"
+                    elif where == "root":
+                        del task["context"]          # no context at all (the default one has no directory of its own)
                     stage = {"task": "t"}
                     if "stage" in sub:
                         stage["dir"] = "sd" if rel is True else proj + "/sd"
